@@ -5,6 +5,9 @@ from ..loader import AnalysisError, norm_stmt, walk_own
 from ..rules_flow import forwarding
 from .common import add_fwd, calls_in
 from .common import check as ob
+from ..canon import Canon
+from ..guards import GuardEval, UNK
+import copy
 from . import C11, C16
 
 EXPLANATION = (
@@ -56,87 +59,102 @@ def _cut_kind(e, var='span'):
 
 
 def dispatcher(ctx, rep, clause):
+    """read once per (return type, protein modified?): the body is specialised under that pair (branches decided by it
+    are pruned, inner helpers whose branches it decides are inlined), which leaves one generator over the spans whose
+    element is classified -- if/elif chains, guard clauses, flags and a local helper are all read alike"""
+    from ..guards import first_exit, spec_return, resolve as gresolve
     program = ctx.program
     f = program.func(RET)
-    want_wrap = {'str': {'fast': [], 'slice': ['serialize']}, 'annotation': {'fast': ['create_annotation'], 'slice': []},
-                 'str-span': {'fast': [], 'slice': ['serialize']},
-                 'annotation-span': {'fast': ['create_annotation'], 'slice': []}}
-    handled = set()
-    n_exprs = 0
-    for node in f.node.body:
-        if not (isinstance(node, ast.If) and isinstance(node.test, ast.Compare) and
-                norm_stmt(node.test.left) == 'return_type' and isinstance(node.test.comparators[0], ast.Constant)):
-            continue
-        rtype = node.test.comparators[0].value
-        handled.add(rtype)
-        rets = []
-
-        def collect(block, guard):
-            for st in block:
-                if isinstance(st, ast.Return):
-                    rets.append((st, guard))
-                elif isinstance(st, ast.If):
-                    collect(st.body, norm_stmt(st.test))
-                    collect(st.orelse, 'not ' + norm_stmt(st.test))
-        collect(node.body, None)
-        for st, guard in rets:
-            g = st.value
-            # the spans may be a one-shot iterator (the semi-/non-enzymatic generators pass one): every return
-            # expression consumes `spans` exactly once
-            uses = [y for y in ast.walk(g) if isinstance(y, ast.Name) and y.id == 'spans']
-            ob(rep, 'SIB-dispatch', RET, f"'{rtype}'" + (f' [{guard}]' if guard else '') + ': the spans are consumed once',
-               len(uses) == 1, 'one pass', f'`{norm_stmt(g)[:90]}` reads `spans` {len(uses)} times: when it is a generator '
-               f'the consumers share it, so each peptide is paired with the next span and every other peptide is lost',
-               f.loc(st), clause)
-            if not isinstance(g, ast.GeneratorExp):
-                if len(uses) == 1:
-                    raise AnalysisError(f'{RET}: return for {rtype} is not a generator expression')
-                continue
-            n_exprs += 1
-            gen = g.generators[0]
-            ok_iter = isinstance(gen.target, ast.Name) and norm_stmt(gen.iter) == 'spans' and len(g.generators) == 1 \
-                and not gen.ifs
-            var = gen.target.id if isinstance(gen.target, ast.Name) else 'span'
-            elt = g.elt
-            paired = None
-            if rtype.endswith('-span'):
-                if isinstance(elt, ast.Tuple) and len(elt.elts) == 2:
-                    paired = isinstance(elt.elts[1], ast.Name) and elt.elts[1].id == var
-                    elt = elt.elts[0]
-                else:
-                    paired = False
-            kind, wrapped, ok_bounds = _cut_kind(elt, var)
-            if rtype == 'span':
-                ob(rep, 'SIB-dispatch', RET, f"'{rtype}': yields the spans themselves", kind == 'span' and ok_iter,
-                   'span for span in spans', f'yields `{norm_stmt(g)[:80]}`', f.loc(st), clause)
-                continue
-            ob(rep, 'SIB-dispatch', RET, f"'{rtype}' [{kind}]: cut with exactly (span[0], span[1]) over all spans",
-               ok_bounds and ok_iter and kind in ('fast', 'slice'), norm_stmt(elt)[:70],
-               f'`{norm_stmt(g)[:90]}` does not cut with (span[0], span[1]) for every span: this return type '
-               f'describes other peptides than the span return type', f.loc(st), clause)
-            if kind in ('fast', 'slice'):
-                ob(rep, 'SIB-dispatch', RET, f"'{rtype}' [{kind}]: result form", sorted(wrapped) == sorted(
-                    want_wrap[rtype][kind]), f'{wrapped or "plain"}',
-                   f'the {kind} path of return type {rtype} produces {wrapped or "a plain slice"}: expected '
-                   f'{want_wrap[rtype][kind] or "a plain slice"}', f.loc(st), clause)
-                if kind == 'fast':
-                    ob(rep, 'SIB-dispatch', RET, f"'{rtype}': fast path only for unmodified annotations",
-                       guard == 'not annotation.has_mods()', 'guarded by `not annotation.has_mods()`',
-                       f'the string-slicing fast path is taken under `{guard}`: modifications of the protein are '
-                       f'dropped from the peptides', f.loc(st), clause)
-            if paired is not None:
-                ob(rep, 'SIB-dispatch', RET, f"'{rtype}' [{kind}]: the peptide is paired with the span it was cut with",
-                   paired, '(peptide, span)', 'the tuple does not carry the span the peptide was cut with', f.loc(st),
-                   clause)
+    c = Canon(f.node)
     mod = program.module(DG)
     lit = mod.assigns.get('DigestReturnType')
     sl = lit.slice
-    members = {x.value for x in (sl.elts if isinstance(sl, ast.Tuple) else [sl]) if isinstance(x, ast.Constant)}
-    ob(rep, 'EXH', RET, f'handles every member of DigestReturnType {sorted(members)}', members == handled,
-       'five branches', f'handled {sorted(handled)}', f.loc(), 'C07b')
-    ob(rep, 'EXH', RET, 'any other return type raises', isinstance(f.node.body[-1], ast.Raise), 'raise ValueError',
-       'an unknown return type falls through silently', f.loc(), 'C07b')
-    rep.floor('SIB-dispatch', 'peptide-producing expressions in the dispatcher', n_exprs, 3)
+    members = sorted(x.value for x in (sl.elts if isinstance(sl, ast.Tuple) else [sl]) if isinstance(x, ast.Constant))
+    want_wrap = {'str': {'fast': [], 'slice': ['serialize']}, 'annotation': {'fast': ['create_annotation'], 'slice': []},
+                 'str-span': {'fast': [], 'slice': ['serialize']},
+                 'annotation-span': {'fast': ['create_annotation'], 'slice': []}}
+    nested = {x.name: x for x in ast.walk(f.node) if isinstance(x, ast.FunctionDef) and x is not f.node}
+    handled = set()
+    n_exprs = 0
+    for rtype in members:
+        for hm in (False, True):
+            env = {'return_type': rtype, 'annotation.has_mods()': hm}
+            exits = first_exit(f.node.body, GuardEval(env, c.aliases()))
+            rets = [st for st, _d in exits if isinstance(st, ast.Return)]
+            if not rets or any(isinstance(st, ast.Raise) for st, _d in exits):
+                continue
+            handled.add(rtype)
+            for st in rets:
+                ge = GuardEval(env, c.aliases())
+                g = gresolve(c.resolve(st.value), ge)
+                label = f"'{rtype}' [{'modified' if hm else 'unmodified'} protein]"
+                uses = [y for y in ast.walk(g) if isinstance(y, ast.Name) and y.id == 'spans']
+                ob(rep, 'SIB-dispatch', RET, f'{label}: the spans are consumed once', len(uses) == 1, 'one pass',
+                   f'`{norm_stmt(g)[:90]}` reads `spans` {len(uses)} times: when it is a generator the consumers share '
+                   f'it, so each peptide is paired with the next span and every other peptide is lost', f.loc(st), clause)
+                if not isinstance(g, ast.GeneratorExp):
+                    if len(uses) == 1:
+                        raise AnalysisError(f'{RET}: return for {rtype} is not a generator expression over the spans')
+                    continue
+                n_exprs += 1
+                gen = g.generators[0]
+                ok_iter = isinstance(gen.target, ast.Name) and norm_stmt(gen.iter) == 'spans' and len(g.generators) == 1 \
+                    and not gen.ifs
+                var = gen.target.id if isinstance(gen.target, ast.Name) else 'span'
+                elt = g.elt
+                # a local helper that builds the peptide: the arm it takes under this pair
+                for _ in range(3):
+                    changed = False
+
+                    class Inl(ast.NodeTransformer):
+                        def visit_Call(self_, n):
+                            nonlocal changed
+                            n = self_.generic_visit(n)
+                            if isinstance(n.func, ast.Name) and n.func.id in nested:
+                                h = nested[n.func.id]
+                                bind = {a.arg: v for a, v in zip(h.args.args, n.args)}
+                                r = spec_return(h, env, c.aliases(), bind)
+                                if r is not None:
+                                    changed = True
+                                    return r
+                            return n
+                    elt = Inl().visit(copy.deepcopy(elt))
+                    if not changed:
+                        break
+                paired = None
+                if rtype.endswith('-span'):
+                    if isinstance(elt, ast.Tuple) and len(elt.elts) == 2:
+                        paired = isinstance(elt.elts[1], ast.Name) and elt.elts[1].id == var
+                        elt = elt.elts[0]
+                    else:
+                        paired = False
+                kind, wrapped, ok_bounds = _cut_kind(elt, var)
+                if rtype == 'span':
+                    ob(rep, 'SIB-dispatch', RET, f"{label}: yields the spans themselves", kind == 'span' and ok_iter,
+                       'span for span in spans', f'yields `{norm_stmt(g)[:80]}`', f.loc(st), clause)
+                    continue
+                ob(rep, 'SIB-dispatch', RET, f"{label}: cut with exactly (span[0], span[1]) over all spans",
+                   ok_bounds and ok_iter and kind in ('fast', 'slice'), norm_stmt(elt)[:70],
+                   f'`{norm_stmt(elt)[:90]}` does not cut with (span[0], span[1]) for every span: this return type '
+                   f'describes other peptides than the span return type', f.loc(st), clause)
+                if kind in ('fast', 'slice'):
+                    ob(rep, 'SIB-dispatch', RET, f"{label}: result form", sorted(wrapped) == sorted(want_wrap[rtype][kind]),
+                       f'{wrapped or "plain"}', f'the {kind} path of return type {rtype} produces '
+                       f'{wrapped or "a plain slice"}: expected {want_wrap[rtype][kind] or "a plain slice"}', f.loc(st), clause)
+                    ob(rep, 'SIB-dispatch', RET, f"{label}: string slicing only for unmodified proteins",
+                       not (kind == 'fast' and hm), 'modified proteins go through slice()',
+                       'the string-slicing fast path is taken for a modified protein: its modifications are dropped '
+                       'from the peptides', f.loc(st), clause)
+                if paired is not None:
+                    ob(rep, 'SIB-dispatch', RET, f"{label}: the peptide is paired with the span it was cut with",
+                       paired, '(peptide, span)', 'the tuple does not carry the span the peptide was cut with', f.loc(st),
+                       clause)
+    ob(rep, 'EXH', RET, f'handles every member of DigestReturnType {members}', set(members) == handled,
+       'every member returns peptides', f'handled {sorted(handled)}', f.loc(), 'C07b')
+    ex = first_exit(f.node.body, GuardEval({'return_type': '<something else>', 'annotation.has_mods()': False}, c.aliases()))
+    ob(rep, 'EXH', RET, 'any other return type raises', len(ex) == 1 and isinstance(ex[0][0], ast.Raise),
+       'raise ValueError', 'an unknown return type falls through silently', f.loc(), 'C07b')
+    rep.floor('SIB-dispatch', 'peptide-producing expressions in the dispatcher', n_exprs, 5)
 
 
 def front_ends(ctx, rep, clause):
